@@ -19,7 +19,7 @@ b8de338 C01 C14
 8dc4d13 C01 C02 C05
 8f63d37 C01
 91eecce C02 C11 C15
-90791ce C04 C12
+75a507b,90791ce C04 C12
 143a935 C04
 abc1dfd C04
 5dfd1c0 C04
@@ -51,12 +51,12 @@ d4b85b4,4f9f7e8,67bdc16 C08
 c156be2 C16
 571ecc8,a009b18 C04
 fffe4f6 C04
-486fe1b C14 C01
+001f011,486fe1b C14 C01
 0699e7c C02 C01
 15167b8,7b756ce C01
 d4b85b4 C08
-09f03f7 C16
-f8434c2 C13
+02ce248,09f03f7 C16
+51e4f90,f8434c2 C13
 460c1b6 C19
 02ce248 C16
 51e4f90 C13
